@@ -1,18 +1,26 @@
 /-
   Properties/C01.lean — state-machine safety (node-level ingredients and status).
 
-  Proved here, for every node state: a state machine instance is handed operations in
+  Node level, for every node state: a state machine instance is handed operations in
   strictly increasing index order, each one the entry of the node's own log at
-  `lastApplied + 1`, never beyond the commit index. The cross-node statement (one
-  operation per index on all replicas, all incarnations) is the corollary of leader
-  completeness and log matching; of that chain this development has machine-checked
-  election safety (C02), the handler-level log-matching theorems (C06), the vote
-  restriction (C08), the commit rule (C04) and crash recovery of the log (C12); the
-  remaining cluster-level induction (leader completeness) is stated in DESIGN.md §7 and is
-  *not* claimed as proved. The cluster-level tie is E4: every Apply call of every
-  incarnation of every node is recorded and compared.
+  `lastApplied + 1`, never beyond the commit index.
+
+  Cluster level (`C01_state_machine_safety`, from Proofs/ReplSafety.lean): in every reachable
+  state of the replication-layer model (Model/Repl.lean: any number of nodes, static
+  configuration, requests lost / delayed / reordered / duplicated, crashes that keep log and
+  vote, any interleaving, unbounded logs and terms) the committed prefixes of any two nodes —
+  also of one state and any later state, i.e. across restarts and leader changes — are
+  comparable. With the node-level theorems: no two state machines ever see different
+  operations at one position. The induction is the 23-field invariant of Proofs/ReplInv.lean
+  (log matching, leader completeness via "dead positions", vote restriction, commit rule).
+  The model's steps are tied to the node functions by Proofs/ReplRefine.lean (merge loop,
+  accepting path, previous-entry guard, vote guard, leader appends) and those to the code by
+  E3; the cluster-level tie is E4 (every Apply call of every incarnation recorded and compared).
+  Outside this theorem: membership changes (C09) and compaction (C10/C11).
 -/
 import RaftVerif.Proofs.LeaderSpecs
+import RaftVerif.Proofs.ReplExample
+import RaftVerif.Proofs.ReplRefine
 set_option linter.unusedSimpArgs false
 namespace Raft
 open Node
@@ -38,5 +46,39 @@ theorem C01_apply_frame (n : Node) (now : Nat) :
   unfold applyStep
   have : ¬ (n.lastApplied < n.commitIndex ∧ n.role ≠ .shutdown) := fun hh => by omega
   simp [this]
+
+/-! ### Cluster level -/
+
+/-- **State machine safety.** In the replication-layer model, for every reachable state `s`,
+    every state `s'` reachable from `s`, and any two nodes: the committed prefix of one (in
+    `s`) and of the other (in `s'`) are comparable — one is a prefix of the other. -/
+theorem C01_state_machine_safety {cfg : Config} (hnd : cfg.voterIds.Nodup) {s s' : Repl.AState}
+    (hr : Repl.Reachable cfg s) (hfrom : Repl.ReachableFrom cfg s s') (a b : Nat) :
+    (s.nodes a).log.take (s.nodes a).commit <+: (s'.nodes b).log.take (s'.nodes b).commit ∨
+    (s'.nodes b).log.take (s'.nodes b).commit <+: (s.nodes a).log.take (s.nodes a).commit :=
+  Repl.state_machine_safety hnd hr hfrom a b
+
+/-- the same within one state, position by position: two nodes that have both committed
+    index `i` hold the same entry there -/
+theorem C01_same_entry_at_committed_index {cfg : Config} (hnd : cfg.voterIds.Nodup) {s : Repl.AState}
+    (hr : Repl.Reachable cfg s) (a b i : Nat) (ha : i < (s.nodes a).commit) (hb : i < (s.nodes b).commit) :
+    (s.nodes a).log[i]? = (s.nodes b).log[i]? := by
+  have hi := Repl.inv_reachable hnd hr
+  have hca := (hi.commit_ok a).1
+  have hcb := (hi.commit_ok b).1
+  have key : ∀ (x y : List Repl.AEntry) (cx cy : Nat), cx ≤ x.length → cy ≤ y.length → i < cx → i < cy →
+      x.take cx <+: y.take cy → x[i]? = y[i]? := by
+    intro x y cx cy hx hy hix hiy hp
+    obtain ⟨r, hr⟩ := hp
+    have h1 : (x.take cx)[i]? = x[i]? := by simp [List.getElem?_take, hix]
+    have h2 : (y.take cy)[i]? = y[i]? := by simp [List.getElem?_take, hiy]
+    rw [← h1, ← h2, ← hr, List.getElem?_append_left (by simp; omega)]
+  rcases Repl.state_machine_safety hnd hr Repl.ReachableFrom.base a b with h | h
+  · exact key _ _ _ _ hca hcb ha hb h
+  · exact (key _ _ _ _ hcb hca hb ha h).symm
+
+/-- non-vacuity: a run that elects a leader, replicates a client operation and commits it is
+    reachable (Proofs/ReplExample.lean) -/
+example : Repl.Reachable Repl.cfg3 Repl.s7 ∧ (Repl.s7.nodes 1).commit = 2 := ⟨Repl.s7_reachable, Repl.s7_committed.1⟩
 
 end Raft
